@@ -200,3 +200,74 @@ Definition lin_pairs (k v : Qc) : list (Z * Qc) :=
 Definition lin_poly (t : fterms) : poly :=
   fold_left (fun d e => fold_left (fun d kv => od_add d (fst kv) (snd kv)) (lin_pairs (fst e) (snd e)) d) t [].
 Definition flinearize (tn td : fterms) : res filt := ctor (mk (lin_poly tn)) (mk (lin_poly td)).
+
+(* ------------------------------------------------------------------ nested filter lists *)
+(* A CascadeFilter / ParallelFilter is a Python list whose members are filters or filter lists again.
+   What a call does depends only on the members the list holds at the moment of the call. *)
+Inductive fstruct := SF (f : filt) | SCasc (l : list fstruct) | SPar (l : list fstruct).
+
+Fixpoint srun (s : fstruct) (x : list Qc) : res (list Qc) :=
+  match s with
+  | SF f => frun f x
+  | SCasc l =>                       (* reduce(lambda data, filt: filt(data), self.callables, x) *)
+      (fix go (l : list fstruct) (acc : res (list Qc)) : res (list Qc) :=
+         match l with [] => acc | m :: r => go r (bind acc (srun m)) end) l (Ok x)
+  | SPar l =>                        (* every member reads its own tee copy of x; the outputs are added *)
+      match l with
+      | [] => Ok (map (fun _ => 0) x)
+      | m :: r =>
+          (fix go (l : list fstruct) (acc : res (list Qc)) : res (list Qc) :=
+             match l with
+             | [] => acc
+             | m' :: r' => go r' (bind acc (fun a => bind (srun m' x) (fun b => Ok (zip_add a b))))
+             end) r (srun m x)
+      end
+  end.
+
+Definition is_sf (s : fstruct) : option filt := match s with SF f => Some f | _ => None end.
+Fixpoint all_sf (l : list fstruct) : option (list filt) :=
+  match l with
+  | [] => Some []
+  | m :: r => match is_sf m, all_sf r with Some f, Some fs => Some (f :: fs) | _, _ => None end
+  end.
+
+(* numpoly / denpoly of a member: a filter's own polynomial, a cascade's product over its members
+   (recursively), a parallel bank's summed filter (modelled for plain filter members only) *)
+Fixpoint spoly (num : bool) (s : fstruct) : res poly :=
+  match s with
+  | SF f => Ok (if num then fnum f else fden f)
+  | SCasc l =>
+      match l with
+      | [] => Raise "TypeError"
+      | m :: r =>
+          (fix go (l : list fstruct) (acc : res poly) : res poly :=
+             match l with
+             | [] => acc
+             | m' :: r' => go r' (bind acc (fun a => bind (spoly num m') (fun b => Ok (pmul a b))))
+             end) r (spoly num m)
+      end
+  | SPar l =>
+      match all_sf l with
+      | Some fs => if num then parallel_numpoly fs else parallel_denpoly fs
+      | None => Raise "unmodelled"
+      end
+  end.
+
+(* the syntax of such a list: operator trees at the leaves *)
+Inductive sexpr := XF (e : fexpr) | XCasc (l : list sexpr) | XPar (l : list sexpr).
+Fixpoint seval (s : sexpr) : res fstruct :=
+  match s with
+  | XF e => bind (feval e) (fun f => Ok (SF f))
+  | XCasc l =>
+      bind ((fix go (l : list sexpr) : res (list fstruct) :=
+               match l with
+               | [] => Ok []
+               | m :: r => bind (seval m) (fun a => bind (go r) (fun b => Ok (a :: b)))
+               end) l) (fun ms => Ok (SCasc ms))
+  | XPar l =>
+      bind ((fix go (l : list sexpr) : res (list fstruct) :=
+               match l with
+               | [] => Ok []
+               | m :: r => bind (seval m) (fun a => bind (go r) (fun b => Ok (a :: b)))
+               end) l) (fun ms => Ok (SPar ms))
+  end.
